@@ -50,6 +50,10 @@ pub enum Op {
     Rem(usize),
     /// remove with a size that does not match
     RemWrongSize(usize),
+    /// remove naming the region's guest range but another frontend address (the guest range is what
+    /// identifies a region; whether such a request succeeds is the implementation's choice - if it
+    /// does, the region is gone from memory AND from the translation table)
+    RemOtherUser(usize),
 }
 
 pub fn alphabet(level: u8) -> Vec<Op> {
@@ -72,7 +76,7 @@ pub fn alphabet(level: u8) -> Vec<Op> {
         v.push(Op::Add(i));
         v.push(Op::Rem(i));
     }
-    v.extend([Op::RemWrongSize(0), Op::RemWrongSize(4)]);
+    v.extend([Op::RemWrongSize(0), Op::RemWrongSize(4), Op::RemOtherUser(0), Op::RemOtherUser(1), Op::RemOtherUser(4)]);
     v
 }
 
@@ -135,6 +139,11 @@ fn step(sys: &mut Sys, op: &Op, hist: &[usize], check: bool, rep: &mut Report, o
             r.size += 0x1000;
             sys.h.ack(REM_MEM_REG, &p_single_region(&r), &[])
         }
+        Op::RemOtherUser(i) => {
+            let mut r = wire_region(&all[*i]);
+            r.user = r.user.wrapping_add(0x1000_0000) & 0x7fff_ffff_f000;
+            sys.h.ack(REM_MEM_REG, &p_single_region(&r), &[])
+        }
     };
     sys.h.be.sh.0.lock().unwrap().fail_update_memory = false;
     let ok = matches!(res, Ok(true));
@@ -170,12 +179,13 @@ fn step(sys: &mut Sys, op: &Op, hist: &[usize], check: bool, rep: &mut Report, o
         }
         Op::Rem(i) => (sys.m.contains(i), !sys.m.iter().any(|j| all[*j].gpa == all[*i].gpa && all[*j].size == all[*i].size)),
         Op::RemWrongSize(_) => (false, true),
+        Op::RemOtherUser(i) => (false, !sys.m.iter().any(|j| all[*j].gpa == all[*i].gpa && all[*j].size == all[*i].size)),
     };
     if ok {
         match op {
             Op::Set(ix) | Op::SetBackendFails(ix) => sys.m = ix.clone(),
             Op::Add(i) => sys.m.push(*i),
-            Op::Rem(i) => {
+            Op::Rem(i) | Op::RemOtherUser(i) => {
                 let (g, s) = (all[*i].gpa, all[*i].size);
                 sys.m.retain(|j| !(all[*j].gpa == g && all[*j].size == s));
             }
@@ -340,7 +350,7 @@ pub fn run(rep: &mut Report) {
     }
     rep.sample(json!({"history":["Set([0, 1])","Add(2)"],"expect":"ADD of a region overlapping the table is rejected, table and translation unchanged"}));
     rep.sample(json!({"regions": regions().iter().map(|r| json!({"name": r.name, "gpa": format!("{:#x}", r.gpa), "size": format!("{:#x}", r.size), "user": format!("{:#x}", r.user), "offset": format!("{:#x}", r.off)})).collect::<Vec<_>>()}));
-    rep.rule = "BFS over histories of {SET_MEM_TABLE of 1-3 regions in both orders, SET_MEM_TABLE with a failing backend callback, ADD_MEM_REG, REM_MEM_REG, REM_MEM_REG with a wrong size} on 8 regions over 3 memfds (adjacent, overlapping, same start, non-zero mmap offsets, 1/2/3 pages, user ranges low / around 2^47 / ending at 2^64-0x1000, un-mmappable descriptor, misaligned offset). After every step: notification count, the memory handed to the backend vs the reference map, byte probes through file and guest memory at the first/last byte of every region, SET_VRING_ADDR translation probes at every region edge +-1 (failed requests end the session: reconnect to the same daemon, which also compares states reached with and without a reconnect). Non-trivial = steps / probes whose expected table, bytes or translation were verified".into();
+    rep.rule = "BFS over histories of {SET_MEM_TABLE of 1-3 regions in both orders, SET_MEM_TABLE with a failing backend callback, ADD_MEM_REG, REM_MEM_REG, REM_MEM_REG with a wrong size, REM_MEM_REG naming another frontend address} on 8 regions over 3 memfds (adjacent, overlapping, same start, non-zero mmap offsets, 1/2/3 pages, user ranges low / around 2^47 / ending at 2^64-0x1000, un-mmappable descriptor, misaligned offset). After every step: notification count, the memory handed to the backend vs the reference map, byte probes through file and guest memory at the first/last byte of every region, SET_VRING_ADDR translation probes at every region edge +-1 (failed requests end the session: reconnect to the same daemon, which also compares states reached with and without a reconnect). Non-trivial = steps / probes whose expected table, bytes or translation were verified".into();
     rep.assumptions.push("whether an update must succeed is only demanded for clearly valid tables (sorted by guest address, disjoint, mappable); overlapping / unmappable updates must fail; unordered but disjoint tables may go either way".into());
 }
 
